@@ -141,7 +141,7 @@ int disasm_epiphany(
           }
           return 2;
         case OP_DISP_IMM11_32:
-          imm = ((opcode32 >> 7) & 0x7) | (((opcode32 >> 16) & 0x7f) << 3);
+          imm = ((opcode32 >> 7) & 0x7) | (((opcode32 >> 16) & 0xff) << 3);
           imm = ((opcode32 & 0x01000000) == 0) ? imm : -imm;
           suffix = long_suffix(n, OP_DISP_IMM3_16, rd < 8 && rn < 8 && imm >= 0 && imm <= 7);
           if (imm != 0)
